@@ -328,6 +328,11 @@ fn check_rsync_parent(x: &Rsync) -> CheckResult {
             ensure!(p.path_is_dir(), "parent() {:?} is not a directory", p.as_str());
             ensure!(p.is_parent_of(x), "parent() {:?} is not a parent of its child {:?}", p.as_str(), x.as_str());
             ensure!(!x.is_parent_of(&p), "child {:?} claims to be parent of its parent {:?}", x.as_str(), p.as_str());
+            // the value parent() returned (it may share memory with the child), not a re-parsed copy
+            ensure!(p != *x && *x != p && !(p == *x), "parent() {:?} compares equal to its child {:?}", p.as_str(), x.as_str());
+            let (ep, ex) = (REntry::with_uri(p.as_str(), p.clone())?, REntry::with_uri(x.as_str(), x.clone())?);
+            pair_rsync(&ep, &ex)?;
+            pair_rsync(&ex, &ep)?;
         }
     }
     Ok(())
@@ -508,6 +513,16 @@ fn check_https_parent(x: &Https) -> CheckResult {
                 p.as_slice().len() < s.len() && s.starts_with(p.as_slice()) && p.as_slice().last() == Some(&b'/') && p.as_slice().len() > ae,
                 "parent() of {:?} is {:?}: not a proper directory prefix", x.as_str(), p.as_str()
             );
+            ensure!(p != *x && *x != p && !(p == *x), "parent() {:?} compares equal to its child {:?}", p.as_str(), x.as_str());
+            let (ep, ex) = (HEntry::with_uri(p.as_str(), p.clone())?, HEntry::with_uri(x.as_str(), x.clone())?);
+            pair_https(&ep, &ex)?;
+            pair_https(&ex, &ep)?;
+            if let Some(pp) = p.parent() {
+                // grandparent, parent and child all come from one buffer
+                let epp = HEntry::with_uri(pp.as_str(), pp.clone())?;
+                pair_https(&epp, &ex)?;
+                pair_https(&epp, &ep)?;
+            }
             if regular {
                 ensure!(!stripped.is_empty(), "parent() of {:?} is {:?} although it has no path segment", x.as_str(), p.as_str());
                 let cut = ae + stripped.iter().rposition(|&c| c == b'/').unwrap_or(0) + 1;
@@ -549,7 +564,90 @@ fn join_https(base: &HEntry, arg: &[u8]) -> Result<bool, Fail> {
         ensure_sig!(j.as_slice() == exp, sig, "{:?}.join({}) = {:?}, expected {}", base.text, show(arg), j.as_str(), show(&exp));
     }
     check_https_parent(&j)?;
+    let ej = HEntry::with_uri(j.as_str(), j.clone())?;
+    pair_https(&ej, base)?;
+    pair_https(base, &ej)?;
     Ok(true)
+}
+
+//------------ values derived from an accepted URI ------------------------------
+
+/// Clones, unshared copies and the directory form obtained through the
+/// `path_into_dir` setter are URIs like any other: same laws.
+fn check_rsync_derived(s: &[u8], u: &Rsync) -> CheckResult {
+    let c = u.clone();
+    ensure!(c == *u && *u == c && hash_of(&c) == hash_of(u) && c.as_slice() == s, "clone of {} differs", show(s));
+    let mut un = u.clone();
+    un.unshare();
+    ensure!(un == *u && *u == un && hash_of(&un) == hash_of(u), "unshare() changes {}", show(s));
+    check_rsync_accepted(s, &un)?;
+    let Some((_, me)) = split_rsync(s) else { return Ok(()) };
+    for ext in [".cer", "/", "a", "", "B/"] {
+        ensure!(u.ends_with(ext) == s[me + 1..].ends_with(ext.as_bytes()), "ends_with({:?}) of {}", ext, show(s));
+    }
+    let r1: &[u8] = u.as_ref();
+    let r2: &str = u.as_ref();
+    ensure!(r1 == s && r2.as_bytes() == s, "AsRef of {}", show(s));
+    // path_into_dir: appends one slash unless the path is empty or ends in one
+    let mut d = u.clone();
+    d.path_into_dir();
+    let mut exp = s.to_vec();
+    if me + 1 != s.len() && s.last() != Some(&b'/') {
+        exp.push(b'/');
+    }
+    ensure_sig!(d.as_slice() == exp, "c12:path-into-dir", "path_into_dir() of {} gives {:?}, expected {}", show(s), d.as_str(), show(&exp));
+    check_rsync_result("Rsync::path_into_dir", &d, u, "c12:path-into-dir")?;
+    ensure_sig!(d.path_is_dir(), "c12:path-into-dir", "path_into_dir() of {} is not a directory: {:?}", show(s), d.as_str());
+    let mut dd = d.clone();
+    dd.path_into_dir();
+    ensure_sig!(dd == d && dd.as_slice() == d.as_slice(), "c12:path-into-dir", "path_into_dir() is not idempotent on {:?}", d.as_str());
+    ensure_sig!(d.relative_to(u) == Some("") && u.relative_to(&d) == Some("") && !d.is_parent_of(u) && !u.is_parent_of(&d),
+        "c12:path-into-dir", "{:?} and its directory form {:?} are not equal up to one trailing slash", u.as_str(), d.as_str());
+    ensure_sig!((d == *u) == (d.as_slice() == s), "c12:path-into-dir", "directory form {:?} vs {:?}: ==", d.as_str(), u.as_str());
+    match d.join(b"a.cer") {
+        Ok(j) => {
+            let mut e = exp.clone();
+            e.extend_from_slice(b"a.cer");
+            ensure_sig!(j.as_slice() == e && d.is_parent_of(&j) && u.is_parent_of(&j) && j.relative_to(u) == Some("a.cer"),
+                "c12:path-into-dir", "join below the directory form of {} gives {:?}", show(s), j.as_str());
+        }
+        Err(e) => return Err(Fail::sig("c12:path-into-dir", format!("directory form {:?} cannot be joined: {}", d.as_str(), e))),
+    }
+    let (ed, eu) = (REntry::with_uri(d.as_str(), d.clone())?, REntry::with_uri(u.as_str(), u.clone())?);
+    pair_rsync(&ed, &eu)?;
+    pair_rsync(&eu, &ed)?;
+    check_rsync_parent(&d)
+}
+
+fn check_https_derived(s: &[u8], u: &Https) -> CheckResult {
+    let c = u.clone();
+    ensure!(c == *u && *u == c && hash_of(&c) == hash_of(u) && c.as_slice() == s, "clone of {} differs", show(s));
+    let mut un = u.clone();
+    un.unshare();
+    ensure!(un == *u && *u == un && hash_of(&un) == hash_of(u), "unshare() changes {}", show(s));
+    check_https_accepted(s, &un)?;
+    let Some(ae) = split_https(s) else { return Ok(()) };
+    let r1: &[u8] = u.as_ref();
+    let r2: &str = u.as_ref();
+    let r3: &Bytes = u.as_ref();
+    ensure!(r1 == s && r2.as_bytes() == s && r3.as_ref() == s, "AsRef of {}", show(s));
+    let mut d = u.clone();
+    d.path_into_dir();
+    let mut exp = s.to_vec();
+    if ae != s.len() && s.last() != Some(&b'/') {
+        exp.push(b'/');
+    }
+    ensure_sig!(d.as_slice() == exp, "c12:path-into-dir", "path_into_dir() of {} gives {:?}, expected {}", show(s), d.as_str(), show(&exp));
+    check_https_result("Https::path_into_dir", &d, u, "c12:path-into-dir")?;
+    ensure_sig!(d.path_is_dir(), "c12:path-into-dir", "path_into_dir() of {} is not a directory: {:?}", show(s), d.as_str());
+    let mut dd = d.clone();
+    dd.path_into_dir();
+    ensure_sig!(dd == d && dd.as_slice() == d.as_slice(), "c12:path-into-dir", "path_into_dir() is not idempotent on {:?}", d.as_str());
+    ensure_sig!((d == *u) == (d.as_slice() == s), "c12:path-into-dir", "directory form {:?} vs {:?}: ==", d.as_str(), u.as_str());
+    let (ed, eu) = (HEntry::with_uri(d.as_str(), d.clone())?, HEntry::with_uri(u.as_str(), u.clone())?);
+    pair_https(&ed, &eu)?;
+    pair_https(&eu, &ed)?;
+    Ok(())
 }
 
 //------------ all constructors on one string -----------------------------------
@@ -577,13 +675,33 @@ fn check_string(s: &[u8]) -> Result<(Option<Rsync>, Option<Https>), Fail> {
             ensure!(a == b && a.as_str() == b.as_str(), "from_str and from_slice give different values for {:?}", text);
         }
     }
+    if let Ok(text) = std::str::from_utf8(s) {
+        // deserialisation is one more constructor: same verdict, same value
+        let js = serde_json::to_string(text).map_err(|e| Fail::new(e.to_string()))?;
+        let (rd, hd) = (serde_json::from_str::<Rsync>(&js), serde_json::from_str::<Https>(&js));
+        ensure!(rd.is_ok() == r.is_ok() && hd.is_ok() == h.is_ok(), "Deserialize and from_slice disagree on {:?}", text);
+        if let (Ok(a), Ok(b)) = (&r, &rd) {
+            ensure!(a == b && b == a && a.as_str() == b.as_str() && hash_of(a) == hash_of(b), "Rsync deserialized from {} differs from the parsed one", js);
+            check_rsync_accepted(s, b)?;
+            ensure!(serde_json::to_string(a).ok().as_deref() == Some(js.as_str()), "Rsync {:?} serialises to something else than its text", text);
+            ensure!(serde_json::from_value::<Rsync>(serde_json::Value::String(text.to_string())).ok().as_ref() == Some(a), "Rsync from a JSON value differs for {:?}", text);
+        }
+        if let (Ok(a), Ok(b)) = (&h, &hd) {
+            ensure!(a == b && b == a && a.as_str() == b.as_str() && hash_of(a) == hash_of(b), "Https deserialized from {} differs from the parsed one", js);
+            check_https_accepted(s, b)?;
+            ensure!(serde_json::to_string(a).ok().as_deref() == Some(js.as_str()), "Https {:?} serialises to something else than its text", text);
+            ensure!(serde_json::from_value::<Https>(serde_json::Value::String(text.to_string())).ok().as_ref() == Some(a), "Https from a JSON value differs for {:?}", text);
+        }
+    }
     if let Ok(u) = &r {
         check_rsync_accepted(s, u)?;
         check_rsync_parent(u)?;
+        check_rsync_derived(s, u)?;
     }
     if let Ok(u) = &h {
         check_https_accepted(s, u)?;
         check_https_parent(u)?;
+        check_https_derived(s, u)?;
     }
     Ok((r.ok(), h.ok()))
 }
